@@ -61,7 +61,7 @@ class PortModel:
             if self.faults:
                 for cls in self.exc_classes:
                     q = p.fork()
-                    q.trail.append(f'wexc{len(p.events)}')
+                    q.trail.append(f'wexc{len(p.events)}' + ('' if cls == SERIAL_EXC else f':{cls}'))
                     q.events.append(('write-exc', data))
                     yield q, Raised(cls, node=node)
             p.events.append(('write', data))
@@ -75,7 +75,7 @@ class PortModel:
             if self.faults:
                 for cls in self.exc_classes:
                     q = p.fork()
-                    q.trail.append(f'rexc{k}')
+                    q.trail.append(f'rexc{k}' + ('' if cls == SERIAL_EXC else f':{cls}'))
                     q.events.append(('read-exc',))
                     yield q, Raised(cls, node=node)
             if self.reads == 'any':
